@@ -143,6 +143,28 @@ def noswap(t):
     return not (t[0] == 'meth2' and t[1] in SWAPPED) and all(noswap(c) for c in children(t))
 
 
+def pnum(t):
+    """a plain Python number in the PLAIN function (coefficient access yields one there)"""
+    k = t[0]
+    if k in ('num', 'coeff'): return True
+    if k in ('prefix', 'meth1'): return pnum(t[2])
+    if k == 'infix': return pnum(t[2]) and pnum(t[3])
+    if k == 'pow': return pnum(t[1])
+    return False
+
+
+def python_number_semantics(t):
+    """the plain function applies Python's own number semantics that the model does not cover (and the recorder
+    cannot reproduce): / ** ^ | & >> @ ~ or a method on plain numbers obtained by coefficient access"""
+    k = t[0]
+    own = False
+    if k == 'infix': own = pnum(t[2]) and pnum(t[3]) and t[1] not in ('+', '-', '*')
+    elif k == 'prefix': own = t[1] == '~' and pnum(t[2])
+    elif k in ('meth1', 'meth2'): own = pnum(t[2])
+    elif k in ('pow', 'grade', 'dual', 'undual', 'norm', 'normalized'): own = pnum(t[1])
+    return own or any(python_number_semantics(c) for c in children(t))
+
+
 def has_coeff(t):
     return t[0] == 'coeff' or any(has_coeff(c) for c in children(t))
 
@@ -347,7 +369,8 @@ def evaluate(R, spec, alg, env, tree, nargs, operands, idx, cases, pool, want_sy
     if kp == 'ok':
         if kr == 'ok':
             if not same_items(plain, reg, exact=not floaty):
-                clause = 'explicit-reflected-call' if not noswap(tree) else 'register-differs'
+                clause = ('explicit-reflected-call' if not noswap(tree) else
+                          'coefficient-int-semantics' if python_number_semantics(tree) else 'register-differs')
                 R.violation({'clause': clause, 'route': 'register'}, dict(rep, plain=plain, registered=reg),
                             f'alg.register(f) returns {reg}, f returns {plain}: {desc}')
         elif supported(tree):
@@ -372,7 +395,8 @@ def evaluate(R, spec, alg, env, tree, nargs, operands, idx, cases, pool, want_sy
                             f'alg.register(symbolic=True)(f) raises {type(sym).__name__} ({sym}) inside the supported fragment, '
                             f'f returns {plain}: {desc}')
     # ---- the Coq model on the integer, division-free cases
-    if floaty:
+    if floaty or python_number_semantics(tree):
+        R.count('model-skipped')
         return
     ref, dfn = pool.ref(spec)
     bodies = kv.blist([gal(b) for _, b in CALLEES] + [gal(tree)])
